@@ -254,7 +254,7 @@ func runC15(tb report.TB, rep *report.Reporter, c c15Case) {
 		}
 		return l[n%len(l)]
 	}
-	nPush, nPull, nAttach, nGC, merged := 0, 0, 0, 0, false
+	nPush, nPull, nAttach, nGC, nMultiAttach, merged := 0, 0, 0, 0, 0, false
 	var kinds []string
 	for i, s := range c.Steps {
 		kinds = append(kinds, s.Kind)
@@ -338,7 +338,23 @@ func runC15(tb report.TB, rep *report.Reporter, c c15Case) {
 			}
 			h, err := rc.StoreData([]byte("attachment bytes \x00\x01 " + s.Text))
 			if err == nil {
-				_, _, err = rc.Bugs().NewWithFiles("bug with attachment", "see file", []repository.Hash{h})
+				var nb *cache.BugCache
+				nb, _, err = rc.Bugs().NewWithFiles("bug with attachment", "see file", []repository.Hash{h})
+				if err == nil && s.Bug%2 == 0 {
+					// several operations with attachments of their own staged together and committed once (what the
+					// web UI and the bridges do): one commit, one tree of attachments
+					var h2, h3 repository.Hash
+					if h2, err = rc.StoreData([]byte("second attachment " + s.Text)); err == nil {
+						if h3, err = rc.StoreData([]byte("third attachment " + s.Text)); err == nil {
+							if _, _, err = nb.AddCommentWithFiles("first comment, one file", []repository.Hash{h2}); err == nil {
+								if _, _, err = nb.AddCommentWithFiles("second comment, another file and a shared one", []repository.Hash{h3, h}); err == nil {
+									err = nb.Commit()
+									nMultiAttach++
+								}
+							}
+						}
+					}
+				}
 			}
 			_ = rc.Close()
 			if err != nil {
@@ -357,7 +373,7 @@ func runC15(tb report.TB, rep *report.Reporter, c c15Case) {
 	}
 	after := hostState(host)
 	rep.Case(strings.Join(kinds, ","), (nPush+nPull) > 0 && (nAttach > 0 || merged),
-		[]string{"head:" + c.Head, fmt.Sprintf("dirty:%v", c.Dirty), fmt.Sprintf("rich-config:%v", c.Config), fmt.Sprintf("merged:%v", merged), fmt.Sprintf("attachments:%v", nAttach > 0), fmt.Sprintf("gc-between-commands:%v", nGC > 0)}, c)
+		[]string{"head:" + c.Head, fmt.Sprintf("dirty:%v", c.Dirty), fmt.Sprintf("rich-config:%v", c.Config), fmt.Sprintf("merged:%v", merged), fmt.Sprintf("attachments:%v", nAttach > 0), fmt.Sprintf("gc-between-commands:%v", nGC > 0), fmt.Sprintf("several-attachment-operations-in-one-commit:%v", nMultiAttach > 0)}, c)
 	if aspect, detail := before.diff(after); aspect != "" {
 		if fail("host-repository-disturbed/"+aspect, detail) {
 			return
